@@ -16,6 +16,15 @@ E-grid (complete products, no sampling) over
             checked on a fresh molecule: every element between all pairs of quantum-number
             tuples against the sum over modes of one-mode displaced-oscillator Hamiltonians,
             and the spectrum.
+* fem-full : aggregates (2-3 molecules, 1-2 modes per molecule) x exciton multiplicity x the
+            build option fem_full in {False, True}: with the option the Hamiltonian also
+            carries the couplings between bands that differ by two excitations (ground <->
+            two-exciton ...), = J_kl x product of the modes' overlaps like every other block.
+* coupling-call : the direct observation route Aggregate.coupling(s1, s2[, full=True]) for
+            ALL ordered pairs of vibronic states of the built aggregate x full in {default,
+            True} x call context {no context, energy_units(int | 1/cm | eV | THz | meV)} x
+            VibronicState objects made {outside, inside} the context.  coupling() returns its
+            value in the current energy units; reference J[internal]/factor(unit) x overlaps.
 
 Oracles (mc/refmodels/fc_laguerre.py, closed Laguerre formula, no diagonalisation, no
 quantarhei): see the clause list in run().
@@ -259,7 +268,7 @@ def eval_shiftop(case):
 # --------------------------------------------------------------------------
 def _blocktype(la, lb):
     ba, bb = sum(la[0]), sum(lb[0])
-    nm = "gef"
+    nm = "gef3456789"
     lo, hi = sorted((ba, bb))
     if ba == bb:
         return "%s-%s-%s" % (nm[lo], nm[hi], "same" if la[0] == lb[0] else "other")
@@ -277,6 +286,9 @@ def eval_agg(case):
             if md["n"][0] * md["n"][1] > 1]
     nontrivial = any(s > 0 for s in seff)
 
+    # build option fem_full: the Hamiltonian also carries the couplings between bands that
+    # differ by two excitations (ground <-> two-exciton ...)
+    fem = bool(case.get("fem", False))
     mols = [_molecule(qr, mol, viol, dev) for mol in spec["mols"]]
     agg = qr.Aggregate(molecules=mols)
     for i in range(nmol):
@@ -292,12 +304,15 @@ def eval_agg(case):
                 md = m.get_Mode(k)
                 olds.append((md, md.get_shift(1)))
                 md.set_shift(1, md.get_shift(1) + 0.9)
-        agg.build(mult=mult)
+        agg.build(mult=mult, fem_full=fem)
         isolation.reset_units()
         for md, sh in olds:
             md.set_shift(1, sh)
     try:
-        agg.build(mult=mult)
+        if "fem" in case:
+            agg.build(mult=mult, fem_full=fem)
+        else:
+            agg.build(mult=mult)                     # the option left at its default
     except IndexError as e:
         isolation.reset_units()
         if maxlev > MAXLIB:
@@ -372,7 +387,7 @@ def eval_agg(case):
 
     # ---- reference in the library's order of electronic states ---------------
     def reference(sigma):
-        labels, FC, H, DD = F.aggregate_reference(spec, lib_sigs, sigma)
+        labels, FC, H, DD = F.aggregate_reference(spec, lib_sigs, sigma, full=fem)
         pos = {l: k for k, l in enumerate(labels)}
         perm = numpy.array([pos[l] for l in labels_lib])
         return FC[numpy.ix_(perm, perm)], H[numpy.ix_(perm, perm)], DD[numpy.ix_(perm, perm)]
@@ -469,16 +484,114 @@ def eval_agg(case):
     dev["poisson"] = worst_p
     dev["orth"] = worst_o
 
-    info = {"dev": dev, "sigma": sigma}
+    nsweeps = ncalls = 0
+    if "ctx" in case:
+        nsweeps, ncalls = _check_coupling_calls(qr, agg, spec, case, labels_lib, lib_sigs,
+                                                sigma, viol, dev)
+    info = {"dev": dev, "sigma": sigma, "coupling_calls": ncalls}
     molout = None
     if nmol == 1:
         molout = _check_molecule(qr, spec, viol, dev)
     offsum = float(numpy.sum(numpy.abs(Hl * offd)))
     out = ["agg", counts, sigma, round(float(numpy.sum(numpy.abs(Fl))), 7),
            round(offsum, 9), round(float(numpy.sum(numpy.abs(Dl))), 7),
-           round(float(numpy.trace(Hl)), 7), molout]
+           round(float(numpy.trace(Hl)), 7), molout, case.get("ctx"), ncalls]
     return {"nontrivial": nontrivial, "outcome": out, "violations": _dedupe(viol),
-            "info": info}
+            "info": info, "n": nsweeps}
+
+
+# --------------------------------------------------------------------------
+# direct calls Aggregate.coupling(state1, state2[, full=True]) in a call context
+# --------------------------------------------------------------------------
+_H, _E, _C = 6.62607015e-34, 1.602176634e-19, 299792458.0     # SI definitions (exact)
+UNIT = {"int": 1.0,                                           # internal unit: rad/fs
+        "1/cm": 2.0 * numpy.pi * _C * 1.0e-13,
+        "THz": 2.0 * numpy.pi * 1.0e-3,
+        "eV": 1.0e-15 * _E * 2.0 * numpy.pi / _H,
+        "meV": 1.0e-18 * _E * 2.0 * numpy.pi / _H}
+CTX_NAME = {"none": "no-context", "int": "int", "1/cm": "per-cm", "THz": "THz", "eV": "eV",
+            "meV": "meV"}
+MADE = ["outside", "inside"]
+
+
+class _NoContext(object):
+    def __enter__(self):
+        return self
+
+    def __exit__(self, *a):
+        return False
+
+
+def _check_coupling_calls(qr, agg, spec, case, labels_lib, lib_sigs, sigma, viol, dev):
+    """Aggregate.coupling(s1, s2) and Aggregate.coupling(s1, s2, full=True) for ALL ordered
+    pairs of vibronic states of the built aggregate, called inside the energy-units context
+    case["ctx"] ("none": no context at all), with VibronicState objects obtained from
+    Aggregate.get_VibronicState before entering the context ("outside") and inside it
+    ("inside").  coupling() returns its result in the CURRENT energy units
+    (`return self.convert_energy_2_current_u(coup)`), so the value has to be
+
+        J_kl[current units] x product over all modes of the Franck-Condon overlaps
+
+    with J_kl[current units] = J_kl[internal]/UNIT[ctx] (conversion factors from the SI
+    definitions, independent of the package); full=True adds the couplings between bands
+    that differ by two excitations.  Returns (number of complete sweeps over all pairs,
+    number of coupling() calls compared)."""
+    ctx = case["ctx"]
+    ku = 1.0 if ctx == "none" else UNIT[ctx]
+    n = len(labels_lib)
+    refs = {}
+    for full in (False, True):
+        labels, _, H, _ = F.aggregate_reference(spec, lib_sigs, sigma, full=full)
+        pos = {l: k for k, l in enumerate(labels)}
+        perm = numpy.array([pos[l] for l in labels_lib])
+        R = H[numpy.ix_(perm, perm)] / ku
+        R[numpy.diag_indices(n)] = 0.0                  # a state is not coupled to itself
+        refs[full] = R
+
+    def make():
+        return [agg.get_VibronicState(es, vs) for (es, vs) in labels_lib]
+
+    ncalls = nsweeps = 0
+    for made in MADE:
+        states = make() if made == "outside" else None
+        got = {}
+        try:
+            with (_NoContext() if ctx == "none" else qr.energy_units(ctx)):
+                if made == "inside":
+                    states = make()
+                for full in (False, True):
+                    C = numpy.zeros((n, n), dtype=complex)
+                    for a in range(n):
+                        for b in range(n):
+                            if full:
+                                C[a, b] = agg.coupling(states[a], states[b], full=True)
+                            else:
+                                C[a, b] = agg.coupling(states[a], states[b])
+                    got[full] = C
+                    ncalls += n * n
+                    nsweeps += 1
+        finally:
+            isolation.reset_units()
+        for full in (False, True):
+            C, R = got[full], refs[full]
+            e, k = _maxerr(C, R)
+            fin = numpy.abs(C[numpy.isfinite(C)])
+            sc = max(float(numpy.max(numpy.abs(R))), float(numpy.max(fin)) if fin.size else 0.0)
+            name = "coupling-call-%s" % CTX_NAME[ctx]
+            dev[name] = max(dev.get(name, 0.0), e / sc if sc > 0 else e)
+            if not e <= TOL * max(sc, 1e-300):
+                la, lb = labels_lib[k[0]], labels_lib[k[1]]
+                viol.append(("coupling-call/%s/%s/full=%s/states-made-%s"
+                             % (CTX_NAME[ctx], _blocktype(la, lb), full, made),
+                             "Aggregate.coupling(%s, %s%s) called %s returns %s; resonance "
+                             "coupling in those units x product of the modes' Franck-Condon "
+                             "overlaps is %.12g (states made %s the context)"
+                             % (la, lb, ", full=True" if full else "",
+                                "without a units context" if ctx == "none"
+                                else "inside energy_units('%s')" % ctx,
+                                C[k], R[k], made),
+                             {"err": e, "states": [la, lb], "units": ctx}))
+    return nsweeps, ncalls
 
 
 def _check_molecule_elements(m, mol, data, scale, viol, dev):
@@ -653,6 +766,7 @@ def _section(nm, alphabet, extra, constraint=None):
 
 
 J1, J2 = 0.02, -0.035
+FEM = [False, True]
 
 
 def _shiftop_direct(Ss, Ns):
@@ -692,6 +806,19 @@ def sections(tier):
         # many declared levels / large Huang-Rhys factors (the upper end of the 20-level table)
         hi = _slot_alphabet([(1, 1), (3, -1), (6, 1)], [(12, 20), (20, 12), (20, 20), (2, 16)])
         sec["1mol-many-levels"] = _section([1], hi, {"d0": [0.0]})
+        # build option fem_full (couplings between bands that differ by two excitations) x
+        # multiplicity
+        q2 = _slot_alphabet([(0.5, -1), (1, 1)], [(2, 2)])
+        sec["fem-full"] = (_section([1, 1], q6, {"J": [J1], "mult": [1, 2], "fem": FEM}) +
+                           _section([2, 1], q4, {"J": [J1], "mult": [1, 2], "fem": FEM}) +
+                           _section([1, 1, 1], q4, {"J": [J1], "mult": [1, 2], "fem": FEM}) +
+                           _section([1, 1, 1], q2, {"J": [J1], "mult": [3], "fem": FEM}))
+        # direct calls Aggregate.coupling(s1, s2[, full=True]) for all pairs of vibronic states
+        # x call context (energy units) x states made inside/outside the context
+        ctx = ["none", "int", "1/cm", "eV"]
+        sec["coupling-call"] = (_section([1, 1], q6, {"J": [J1], "mult": [1, 2], "ctx": ctx}) +
+                                _section([2, 1], q4, {"J": [J1], "mult": [2], "ctx": ctx}) +
+                                _section([1, 1, 1], q2, {"J": [J1], "mult": [2], "ctx": ctx}))
     else:
         sec["shiftop"] = [{"kind": "shiftop", "S": S, "sg": sg, "N": N}
                           for N in ("default", 150)
@@ -722,6 +849,23 @@ def sections(tier):
         sec["3mol-uneven"] = _section([1, 0, 2], t6, {"J": [J1], "mult": [1, 2]})
         sec["limit"] = [{"kind": "agg", "nm": [1], "slots": [{"S": 0.5, "sg": 1, "n0": n0, "n1": n1}]}
                         for (n0, n1) in ((2, 21), (21, 2), (25, 25))]
+        t20 = _slot_alphabet([(0, 1), (0.1, 1), (0.5, -1), (1, 1), (2, 1)],
+                             [(2, 2), (1, 3), (3, 2), (2, 3)])
+        t4 = _slot_alphabet([(0.5, -1), (1, 1)], [(2, 2), (1, 3)])
+        sec["fem-full"] = (_section([1, 1], t20, {"J": [J1, J2], "mult": [1, 2], "fem": FEM}) +
+                           _section([2, 1], t9, {"J": [J1], "mult": [1, 2], "fem": FEM}) +
+                           _section([1, 2], t6, {"J": [J1], "mult": [1, 2], "fem": FEM}) +
+                           _section([2, 2], t6, {"J": [J1], "mult": [2], "fem": FEM}) +
+                           _section([1, 1, 1], t9, {"J": [J1], "mult": [1, 2, 3], "fem": FEM}) +
+                           _section([1, 0, 2], t6, {"J": [J1], "mult": [2, 3], "fem": FEM}))
+        ctx = ["none", "int", "1/cm", "eV", "THz", "meV"]
+        sec["coupling-call"] = (
+            _section([1, 1], t20, {"J": [J1, J2], "mult": [1, 2], "ctx": ctx}) +
+            _section([2, 1], t6, {"J": [J1], "mult": [1, 2], "ctx": ctx}) +
+            _section([1, 2], t6, {"J": [J1], "mult": [2], "ctx": ctx}) +
+            _section([2, 2], t4, {"J": [J1], "mult": [2], "ctx": ctx}) +
+            _section([1, 1, 1], t6, {"J": [J1], "mult": [1, 2], "ctx": ctx}) +
+            _section([1, 1, 1], t4, {"J": [J1], "mult": [3], "ctx": ctx}))
     return sec
 
 
@@ -738,7 +882,11 @@ def run(run):
                 "alphabet, x coupling x multiplicity x ground-state shift x frequency set; "
                 "shift operator: complete product HR x sign x basis size (shift taken from "
                 "Mode) and HR x argument class {real +, real -, +-imaginary, 3 general complex "
-                "phases} x basis size (direct call).  non-trivial = at "
+                "phases} x basis size (direct call); fem-full: slots x multiplicity x build "
+                "option fem_full in {False, True}; coupling-call: slots x multiplicity x call "
+                "context {no context, energy_units(int | 1/cm | eV | THz | meV)} and inside each "
+                "case ALL ordered pairs of vibronic states x full in {default, True} x states "
+                "made {outside, inside} the context.  non-trivial = at "
                 "least one mode with a non-zero displacement between g and e and more than "
                 "one level (shiftop: HR > 0)")
     run.assumptions = [
@@ -759,6 +907,15 @@ def run(run):
         "shift, above the exact levels and ground level within omega*S*p_{N-1}/(1-t_N) else",
         "more than 20 levels per mode cannot be built (20-level FC table): counted as "
         "unbuildable, not as violation",
+        "build(fem_full=True) / coupling(.., full=True): the electronic quantity between two "
+        "signatures that differ on exactly two molecules and by two excitations is the "
+        "resonance coupling of those two molecules (non-secular terms of the Frenkel "
+        "Hamiltonian), zero without the option; vibronic elements = that x product of overlaps",
+        "Aggregate.coupling(VibronicState, VibronicState) returns its value in the current "
+        "energy units (as its code says: convert_energy_2_current_u on return); reference = "
+        "J[internal]/factor(unit) x product of overlaps with factors from the SI definitions; "
+        "only the call is made inside the context, the aggregate is set up and built outside; "
+        "pairs of purely electronic states are not claimed",
     ]
     sc = F.selfcheck()
     if not sc < 1e-12:
@@ -770,13 +927,17 @@ def run(run):
                   "molecules": "1..3",
                   "modes_per_molecule": "0..4" if run.tier == "thorough" else "0..3",
                   "shift_argument_classes": [_phase_class(ph) for ph in PHASES],
-                  "mult": [1, 2]}
-    worst, unbuildable, mirrored = {}, [], 0
+                  "mult": [1, 2, 3], "fem_full": FEM,
+                  "coupling_call_contexts": sorted(set(c["ctx"] for c in secs["coupling-call"])),
+                  "coupling_call_inner": {"full": ["default", True], "states_made": MADE,
+                                          "pairs": "all ordered pairs of vibronic states"}}
+    worst, unbuildable, mirrored, calls = {}, [], 0, 0
     for name, cs in secs.items():
         infos = run_grid(run, cs, eval_case, section=name)
         for inf in infos:
             if inf.get("sigma") == -1:
                 mirrored += 1
+            calls += int(inf.get("coupling_calls") or 0)
             for k, v in (inf.get("dev") or {}).items():
                 if v is not None and numpy.isfinite(v):
                     worst[k] = max(worst.get(k, 0.0), float(v))
@@ -785,4 +946,5 @@ def run(run):
     run.note(worst_deviation={k: float("%.3g" % v) for k, v in sorted(worst.items())},
              unbuildable=len(unbuildable), unbuildable_what=sorted(set(unbuildable))[:4],
              refmodel_selfcheck=float("%.3g" % sc),
-             cases_matching_only_mirrored_orientation=mirrored)
+             cases_matching_only_mirrored_orientation=mirrored,
+             direct_coupling_calls_compared=calls)
